@@ -49,4 +49,9 @@ macro "src_prop" : tactic =>
                Nat.reducePow, Nat.reduceSub, Bool.true_eq_false, Bool.false_eq_true, if_true, if_false])
              first | done | grind))
 
+/-- finisher after the regenerated definition has been unfolded and the translator's built-ins rewritten: nothing left, or a
+goal that `grind` / `omega` decide (different but equivalent spelling of a test, reordered sums, nested `if`s). -/
+macro "src_close" : tactic =>
+  `(tactic| first | done | rfl | omega | grind | (split <;> first | rfl | omega | grind) | (split <;> split <;> first | rfl | omega | grind))
+
 end TonVerif.Proofs.SrcArith2
